@@ -1,5 +1,8 @@
 /-
-C05 — theorems about the Caddyfile adaptation of `handle_errors` (Adapt.lean).
+C05 — theorems about the Caddyfile adaptation modelled in Adapt.lean: `handle_errors` (status
+arguments, a directive's own matcher, the block sort: `handle_errors_site_behaves_as_written`),
+`handle` / `handle_path` blocks with `respond` / `error` (group names, consolidation, the as-written
+reading: `adaptNodes_fresh`, `consolidate_preserves_behaviour`, `site_behaves_as_written`).
 -/
 import CaddyModel.C05.Adapt
 import CaddyModel.C05.Lemmas
